@@ -27,6 +27,7 @@ func init() {
 		"sxParam":   sxParam,
 		"sxOpt":     sxOpt,
 		"sxNote":    sxNote,
+		"sxDebug":   func(fr *frame, args []value) value { return nil },
 		"sxSymbolic": func(fr *frame, args []value) value { return !fr.i.ps.isConcrete },
 	}
 }
